@@ -228,6 +228,22 @@ def make_same_name(inc):
 SameNameA, SameNameB = make_same_name(1), make_same_name(2)
 
 
+def make_case_name(inc, unit_name):
+    class CaseName(cohdl.Entity, name=unit_name):
+        a = Port.input(Unsigned[3])
+        o = Port.output(Unsigned[3])
+
+        def architecture(self):
+            @std.concurrent
+            def logic():
+                self.o <<= self.a + inc
+
+    return CaseName
+
+
+CaseNameA, CaseNameB = make_case_name(1, "Stage"), make_case_name(2, "STAGE")
+
+
 class Mid(cohdl.Entity):
     clk = Port.input(Bit)
     a = Port.input(Unsigned[3])
@@ -329,6 +345,11 @@ TREES = [
      {"LeafComb", "LeafMix", "LeafBits"}),
     ("two-templates-with-one-name", False,
      ["SameNameA(a=self.x, o=self.o1)", "SameNameB(a=self.x, o=self.o2)", "LeafBits(x=self.v[1:0], o=self.ob)"],
+     ["@std.concurrent", "def l():", "    self.o1 <<= self.x + 1", "    self.o2 <<= self.x + 2", "    self.ob <<= f_bits(self.v[1:0])"],
+     None),
+    # VHDL identifiers are case insensitive: Stage and STAGE are one design unit of library work
+    ("two-templates-names-differ-in-case", False,
+     ["CaseNameA(a=self.x, o=self.o1)", "CaseNameB(a=self.x, o=self.o2)", "LeafBits(x=self.v[1:0], o=self.ob)"],
      ["@std.concurrent", "def l():", "    self.o1 <<= self.x + 1", "    self.o2 <<= self.x + 2", "    self.ob <<= f_bits(self.v[1:0])"],
      None),
     ("port-default-and-reset", True,
